@@ -36,6 +36,16 @@ the mpmath recursion.  Optional arguments of forward are given to SOME calls of 
 covariances to one call, none to the next, on reset=True and reset=False objects); every call of a reset=True object must equal the
 same call on a fresh object, also after a call that was given other init_state / gyro_cov / acc_cov / rot (depends-on-earlier-calls);
 zero sensor covariances give a zero covariance.
+
+Third strengthening (what a rejected call leaves behind; quantities that are tiny themselves): a call that raises has delivered no
+states, so the calls after it must return what they return in the same history without it (check_exception_safety: malformed sensor
+covariances / carried covariance - rejected late, inside the covariance step - and rank / frame / batch mismatches - rejected early -
+are put in front of every call of reset=False and reset=True histories; Model/IMU.v run_calls says the same: 'the call raised: buffers
+unchanged').  The comparison with the mpmath recursion is RELATIVE to what the recursion sums up for the batch item (rel_scales: vector
+part of the rotation vs |initial vector part| + sum |w dt| / 2, velocity vs |v0| + sum (|acc| + g) dt, position likewise) instead of
+absolute with scale >= 1, and streams whose quantities are tiny are generated in every run: 0 < |gyro| dt <= about eps(dtype) in every
+frame from the identity attitude (near-stationary IMU at high rate; at, just above and far below eps), batches mixing such items with
+generic ones, tiny accelerations without gravity from rest.
 """
 import math
 from ..common import *
@@ -50,7 +60,10 @@ RULE = ('a scenario = one module object + a list of calls (chunks of one stream)
         '(init_state / gyro_cov / acc_cov), state hand-over through init_state; memory layouts rotate; gravity and sensor covariances of '
         'the oracle / model = what the constructor was GIVEN (0.0, int 0, negative, omitted = documented default; zero covariances), never '
         'read back from the object; optional arguments given to some calls of a history only; every call of a reset=True object = the same '
-        'call on a fresh object, also after a call given other init_state / covariances / rot; '
+        'call on a fresh object, also after a call given other init_state / covariances / rot; calls after a call that RAISED (malformed '
+        'covariances: rejected inside the covariance step; rank / frame / batch mismatches) = the same calls without it; the mpmath comparison is '
+        'relative to the magnitudes the recursion sums up per item ((32+4 N) eps x (|q0 vector part| + sum |w dt|/2), x (|v0| + sum (|acc|+g) dt), ...), '
+        'with streams of 0 < |gyro| dt <= ~eps(dtype) from the identity attitude and tiny accelerations from rest in every run; '
         'a scenario is non-trivial when it has >= 2 frames; distinct = distinct (route, dtype, B, chunking, flags, data hash)')
 EPS = {'float64': 2.0 ** -52, 'float32': 2.0 ** -23}
 KEY_COV = 'IMUPreintegrator.forward:cov:one-call-vs-chunks:F>=3'
@@ -638,25 +651,71 @@ def oracle(sc, g):
     return outs
 
 
+def rel_scales(sc, run):
+    """per call, per batch item: the magnitudes the documented recursion builds its outputs from - the RELATIVE oracle
+         rotation (vector part of the quaternion)  <=  |vector part of the initial rotation| + sum |w dt| / 2   (capped at 1)
+         velocity                                  <=  |v0| + sum (|acc| + g) dt                       =: |v0| + A
+         position                                  <=  |p0| + (|v0| + A) T
+       sums over the frames integrated since the state the call started from was given (constructor / init_state / carried).
+       A floating-point evaluation of the recursion is wrong by at most (32 + 4 N) eps times these magnitudes; the absolute
+       allowance of tolerances() (scale 1 + ...) hides every error in streams whose quantities are themselves tiny (gyro dt
+       below eps(dtype) from an identity attitude: a near-stationary IMU at high rate; tiny accelerations without gravity)."""
+    g = abs(run['g'])
+    nrm = lambda v: math.sqrt(sum(float(x) * float(x) for x in v))
+    base0 = [(nrm(r[:3]), nrm(v), nrm(p)) for r, v, p in state_items(sc)]
+    acc = None            # per item [q0, v0, p0, theta, A, T]
+    res = []
+    for c in sc['calls']:
+        B = len(c['dt'])
+        if c.get('init') is not None:
+            base = [(nrm(r[:3]), nrm(v), nrm(p)) for r, v, p in state_items(c['init'])]
+            acc = None
+        else:
+            base = base0
+        if acc is None or sc['reset'] or len(acc) != B:
+            acc = [list(base[b] if len(base) == B else base[0]) + [0.0, 0.0, 0.0] for b in range(B)]
+        row = []
+        for b in range(B):
+            n = min(len(c['dt'][b]), len(c['gyro'][b]), len(c['acc'][b])) if b < min(len(c['gyro']), len(c['acc'])) else 0
+            a = acc[b]
+            for k in range(n):
+                h = abs(c['dt'][b][k])
+                a[3] += nrm(c['gyro'][b][k]) * h
+                a[4] += (nrm(c['acc'][b][k]) + g) * h
+                a[5] += h
+            row.append((min(1.0, a[0] + a[3] / 2), a[1] + a[4], a[2] + (a[1] + a[4]) * a[5]))
+        res.append(row)
+    return res
+
+
 def check_oracle(sc, run):
-    """implementation outputs vs the documented recursion; returns a description of the first failure"""
+    """implementation outputs vs the documented recursion; returns a description of the first failure.
+    Tolerance per output: (32 + 4 N) eps times the magnitude of what the recursion adds up for THAT batch item (rel_scales; never
+    more than the absolute allowance of tolerances()); the real part of the quaternion keeps the absolute allowance."""
     if run['ctor_raised'] or any(r['out'] is None for r in run['calls']):
         return None
     tols = tolerances(sc, run)
+    rels = rel_scales(sc, run)
     ref = oracle(sc, run['g'])
     for ci, (r, t) in enumerate(zip(run['calls'], tols)):
         o = r['out']
         for b in range(len(o['rot'])):
+            s = rels[ci][b]
+            tq, tv, tp = min(t[0], t[0] * s[0]), min(t[1], t[0] * s[1]), min(t[2], t[0] * s[2])
             for k in range(len(o['rot'][b])):
                 R, v, p = ref[ci][b][k]
                 # quaternion sign: the implementation never re-normalises the sign, neither does the recursion
-                for name, got, exp, tol in (('rot', o['rot'][b][k], R, t[0]), ('vel', o['vel'][b][k], v, t[1]), ('pos', o['pos'][b][k], p, t[2])):
+                for name, got, exp, tol in (('rot (vector part)', o['rot'][b][k][:3], R[:3], tq), ('rot (real part)', o['rot'][b][k][3:], R[3:], t[0]),
+                                            ('vel', o['vel'][b][k], v, tv), ('pos', o['pos'][b][k], p, tp)):
                     err = max(abs(float(got[i]) - float(exp[i])) for i in range(len(exp)))
                     if tol > 0:
                         STATS['oracle'] = max(STATS['oracle'], err / tol)
                     if not err <= tol:
-                        return ('call %d item %d frame %d: %s = %s, documented recursion gives %s (|diff| = %.3g > %.3g)'
-                                % (ci, b, k, name, [float(x) for x in got], [float(x) for x in exp], err, tol))
+                        mag = max(abs(float(x)) for x in exp)
+                        return ('call %d item %d frame %d: %s = %s, documented recursion gives %s (|diff| = %.3g > %.3g = (32 + 4 N) eps x %.3g, '
+                                'the magnitude the recursion sums up for this item; relative to the expected value: %.3g)'
+                                % (ci, b, k, name, [float(x) for x in got], [float(x) for x in exp], err, tol,
+                                   tol / t[0] if t[0] > 0 else 0.0, err / mag if mag > 0 else float('inf')))
     return None
 
 
@@ -982,6 +1041,91 @@ def check_history(pp, torch, sc, run):
     return None
 
 
+def rejected_calls(pp, torch, pos, kw, B, F, dtype):
+    """calls OUTSIDE the documented domain derived from a valid call (pos = [dt, gyro, acc], kw): candidates for a call the
+    module refuses.  They fail at different depths of forward: rank / frame / batch mismatches early (assert, integrate, predict),
+    malformed sensor covariances and a malformed carried covariance late (inside the covariance step, after integrate and predict).
+    -> list of (description, positional arguments, keyword arguments)"""
+    dt, gyro, acc = pos
+    out = []
+    for name in ('gyro_cov', 'acc_cov'):
+        for shape in ((B, 3), (B + 1, 1, 3), (B, F + 1, 3), (B + 2, F + 2, 3), (2, 2)):
+            out.append(('%s of shape %s (documented: (3) or (B, 1, 3)), B = %d, F = %d' % (name, shape, B, F), pos,
+                        dict(kw, **{name: torch.full(shape, 2.0 ** -10, dtype=dtype)})))
+    st = state_tensors(pp, torch, DECOY_STATE, dtype, Watch(torch), 'init_state')
+    out.append(('init_state with a carried covariance of shape (B, 3, 3) instead of (B, 9, 9)', pos,
+                dict(kw, init_state=dict(st, cov=torch.zeros(B, 3, 3, dtype=dtype)))))
+    out.append(('init_state with a carried covariance for B + 1 IMUs', pos, dict(kw, init_state=dict(st, cov=torch.zeros(B + 1, 9, 9, dtype=dtype)))))
+    two = acc.dim() >= 2
+    out.append(('acc one frame shorter than dt and gyro', [dt, gyro, acc[..., :-1, :]], kw) if two and F >= 2 else None)
+    out.append(('dt one frame longer than gyro and acc', [torch.cat([dt, dt[..., -1:, :]], dim=-2), gyro, acc], kw) if two else None)
+    if two and kw.get('rot') is not None:
+        r = kw['rot'].tensor()
+        out.append(('rot one frame longer than dt', pos, dict(kw, rot=pp.SO3(torch.cat([r, r[..., -1:, :]], dim=-2)))))
+    else:
+        out.append(None)
+    out.append(('gyro of lower rank than dt and acc', [dt, gyro[0], acc], kw) if two else None)
+    if acc.dim() == 3:
+        more = lambda t: torch.cat([t, t[-1:]], dim=0)
+        kw2 = dict(kw, rot=pp.SO3(more(kw['rot'].tensor()))) if kw.get('rot') is not None else kw
+        out.append(('a batch of B + 1 IMUs', [more(dt), more(gyro), more(acc)], kw2))
+    else:
+        out.append(None)
+    return out
+
+
+def check_exception_safety(pp, torch, sc, run):
+    """a call that RAISES has delivered no states: the stream the object has integrated is the stream of the calls that
+    returned, so the calls after a rejected one must return what they return in the same history without it (reset=False: the
+    carried pos / rot / vel / cov / Rij are what they were; reset=True: the constructor's).  Every kind of rejected call is tried
+    in front of every call of the history; a candidate the module accepts (it returns) is not judged."""
+    if not wellformed(sc) or run['ctor_raised'] or not run['calls'] or any(r['out'] is None for r in run['calls']):
+        return None
+    dtype = getattr(torch, sc['dtype'])
+    tols = tolerances(sc, run)
+    B0, F0 = len(sc['calls'][0]['dt']), len(sc['calls'][0]['dt'][0])
+    pos0, kw0 = Args(pp, torch, sc, Watch(torch), 'fresh').call(0)
+    nkinds = len(rejected_calls(pp, torch, pos0, kw0, B0, F0, dtype))       # 5 gyro_cov + 5 acc_cov shapes, 2 carried covariances, 5 early ones
+    h = int(sc_key(sc), 16)
+    if sc.get('rejections') == 'all':
+        kinds = list(range(nkinds))                         # directed scenarios: every kind
+    else:                                                   # a malformed sensor covariance, a malformed carried covariance, an early one -
+        kinds = [(h % 10), 10 + (h // 10) % 2, 12 + (h // 20) % 5]         # chosen by the scenario (replayable); ~5 ms per call
+        if len(sc['calls']) > 4:
+            kinds = [kinds[0], kinds[1 + (h // 100) % 2]]
+    for kind in kinds:
+        m = make_module(pp, torch, sc)
+        args = Args(pp, torch, sc, Watch(torch), 'fresh')
+        rej = None                                          # the latest rejected call of this history
+        for ci, c in enumerate(sc['calls']):
+            pos, kw = args.call(ci)
+            B, F = len(c['dt']), len(c['dt'][0])
+            cand = rejected_calls(pp, torch, pos, kw, B, F, dtype)[kind]
+            if cand is not None:
+                try:
+                    do_call(m, cand[1], cand[2])
+                    break                                   # accepted (broadcast): the object has legitimately moved on - not judged
+                except Exception as e:
+                    rej = (cand[0], '%s: %s' % (type(e).__name__, str(e).split('\n')[0][:100]), ci)
+            try:
+                o, err = extract(torch, do_call(m, pos, kw), c)
+            except Exception as e:
+                if rej is None:
+                    break
+                return ('call %d returns in the plain history; made after a call with the data of call %d that the module rejected (%s; it '
+                        'raised %s) it raises %r' % (ci, rej[2], rej[0], rej[1], e))
+            if err:
+                return err
+            d = out_diff(run['calls'][ci]['out'], o, tols[ci])
+            if d and rej is None:
+                break                                       # no rejected call so far in this history: judged by the other clauses
+            if d:
+                return ('reset=%s: call %d of the history, made after a call with the data of call %d that the module REJECTED (%s; it raised '
+                        '%s), differs from call %d of the same history without the rejected call - a call that raised changed the object '
+                        '(plain history vs history with the rejected call): %s' % (sc['reset'], ci, rej[2], rej[0], rej[1], ci, d))
+    return None
+
+
 def property_check(pp, torch, sc, run=None):
     """all clauses of the property on the implementation; returns list of (key, what)"""
     if run is None:
@@ -1013,7 +1157,8 @@ def property_check(pp, torch, sc, run=None):
     for key, fn in (('IMUPreintegrator.forward:same-tensors-fed-again', check_reuse), ('IMUPreintegrator.forward:batch-item-vs-single', check_per_item),
                     ('IMUPreintegrator.forward:call-argument-vs-constructor-argument', check_call_forms),
                     ('IMUPreintegrator.forward:init_state-handover', check_handover),
-                    ('IMUPreintegrator.forward:depends-on-earlier-calls', check_history)):
+                    ('IMUPreintegrator.forward:depends-on-earlier-calls', check_history),
+                    ('IMUPreintegrator.forward:changed-by-a-call-that-raised', check_exception_safety)):
         w = fn(pp, torch, sc, run)
         if w:
             res.append((key, w))
@@ -1056,7 +1201,8 @@ def rand_unit(rng):
 
 
 def gen_float(rng, dtype, F, B, chunks, with_rot, gravity, style, reset=False, prop_cov=True, rank=3):
-    """generic floats; style: 'imu' (dt ~ 1e-2, small rates), 'wild' (dt in [1e-4,1], large rates), 'still' (gyro = 0)"""
+    """generic floats; style: 'imu' (dt ~ 1e-2, small rates), 'wild' (dt in [1e-4,1], large rates), 'still' (gyro = 0), 'slow' (0 < |gyro| dt
+    <= about eps(dtype)), 'faint' (slow and tiny accelerations), 'mixed' / 'mixed_slow' (one kind per batch item)"""
     import struct
 
     def fl(x):
@@ -1065,20 +1211,52 @@ def gen_float(rng, dtype, F, B, chunks, with_rot, gravity, style, reset=False, p
     def dtv():
         if style == 'imu':
             return fl(rng.choice([0.005, 0.01, 0.0025]) * rng.uniform(0.9, 1.1))
+        if style in ('slow', 'faint', 'mixed_slow'):        # high-rate sampling
+            return fl(rng.choice([1e-3, 1.2e-4, 0.0025, 0.01]) * rng.uniform(0.9, 1.1))
         return fl(math.exp(rng.uniform(math.log(1e-4), 0.0)))
-    WS = {'imu': 0.5, 'wild': 6.0, 'still': 0.0}
-    ws = [WS[['still', 'wild', 'imu'][b % 3] if style == 'mixed' else style] for b in range(B)]   # mixed: special and generic IMUs in one batch
-    mk = lambda n: dict(
-        dt=[[dtv() for _ in range(n)] for _ in range(B)],
-        gyro=[[[fl(rng.gauss(0, ws[b])) for _ in range(3)] for _ in range(n)] for b in range(B)],
-        acc=[[[fl(rng.gauss(0, 4.0) + (9.8 if i == 2 else 0)) for i in range(3)] for _ in range(n)] for _ in range(B)],
-        rot=[[[fl(x) for x in rand_unit(rng)] for _ in range(n)] for _ in range(B)] if with_rot else None,
-        ranks=[rank] * 4)
+    WS = {'imu': 0.5, 'wild': 6.0, 'still': 0.0, 'slow': None, 'faint': None}
+    MIX = {'mixed': ['still', 'wild', 'imu'], 'mixed_slow': ['slow', 'imu', 'still', 'slow']}
+    kinds = [MIX[style][b % len(MIX[style])] if style in MIX else style for b in range(B)]   # mixed: special and generic IMUs in one batch
+    eps = EPS[dtype]
+
+    def gyro(b, h):
+        """'slow' / 'faint' (a near-stationary IMU at high rate): the rotation angle |w| dt of a frame is at or below eps(dtype),
+        from eps 2^-30 up to the threshold eps itself, some frames just above it (up to 4 eps)"""
+        if WS[kinds[b]] is not None:
+            return [fl(rng.gauss(0, WS[kinds[b]])) for _ in range(3)]
+        u = [rng.gauss(0, 1) for _ in range(3)]
+        n = math.sqrt(sum(x * x for x in u)) or 1.0
+        r = rng.random()
+        th = eps * (1.0 if r < 0.1 else rng.uniform(1.0, 4.0) if r < 0.25 else 2.0 ** -rng.randint(0, 30) * rng.uniform(0.5, 1.0))
+        return [fl(x / n * th / h) for x in u]
+
+    def accel(b):
+        if kinds[b] == 'faint':                             # tiny specific force (free fall, gravity = 0): velocity and position are tiny themselves
+            return [fl(rng.gauss(0, 2.0 ** -rng.randint(20, 40))) for _ in range(3)]
+        return [fl(rng.gauss(0, 4.0) + (9.8 if i == 2 else 0)) for i in range(3)]
+
+    def mk(n):
+        dts = [[dtv() for _ in range(n)] for _ in range(B)]
+        return dict(dt=dts, gyro=[[gyro(b, dts[b][k]) for k in range(n)] for b in range(B)],
+                    acc=[[accel(b) for _ in range(n)] for b in range(B)],
+                    rot=[[[fl(x) for x in rand_unit(rng)] for _ in range(n)] for _ in range(B)] if with_rot else None,
+                    ranks=[rank] * 4)
     cov = rng.random() < 0.5
     return dict(dtype=dtype, gravity=gravity, gyro_cov=(3.2e-3) ** 2 if cov else [fl(10 ** rng.uniform(-7, -3)) for _ in range(3)],
                 acc_cov=(8e-2) ** 2 if cov else [fl(10 ** rng.uniform(-5, -1)) for _ in range(3)], prop_cov=prop_cov, reset=reset,
                 pos=[fl(rng.uniform(-10, 10)) for _ in range(3)], rot=[fl(x) for x in rand_unit(rng)],
                 vel=[fl(rng.uniform(-3, 3)) for _ in range(3)], calls=[mk(n) for n in chunks], route='float', F=F, B=B, style=style)
+
+
+def at_rest(rng, sc, how):
+    """the initial attitude is the identity (given, or the constructor default) - the integrated rotation of a 'slow' stream is then
+    tiny itself and only a relative comparison sees it; how = 'faint': zero initial velocity and position too"""
+    sc = dict(sc)
+    if how == 'faint' or rng.random() < 0.3:
+        sc.update(pos=None, rot=None, vel=None) if rng.random() < 0.5 else sc.update(DEFAULT_STATE)
+    else:
+        sc['rot'] = [0.0, 0.0, 0.0, 1.0]
+    return sc
 
 
 def witness():
@@ -1285,6 +1463,12 @@ def run(ctx):
     d.append(decorate(rng, gen_exact(rng, 6, 2, [2, 1, 3], False, G), 'init_some'))
     d.append(decorate(rng, gen_exact(rng, 6, 1, [3, 3], True, 0.0), 'init_some'))
     d.append(decorate(rng, gen_exact(rng, 6, 2, [2, 2, 2], False, G), 'cov_some'))
+    # every kind of rejected call in front of every call (check_exception_safety): reset=False histories with B not in {1, F},
+    # with / without rot, init_state to the first call, a reset=True object
+    d.append(dict(gen_exact(rng, 8, 2, [3, 5], False, G), rejections='all'))
+    d.append(dict(gen_exact(rng, 9, 3, [4, 1, 4], True, 0.0), rejections='all'))
+    d.append(dict(decorate(rng, gen_exact(rng, 7, 2, [3, 4], False, G), 'init_first'), rejections='all'))
+    d.append(dict(gen_exact(rng, 7, 2, [3, 4], True, G, reset=True), rejections='all'))
     for i, sc in enumerate(d):
         add(sc, cov_exact=(i in (10, 11)))
     MODES = [None, None, None, 'init_first', 'init_all', 'cov_call', 'reanchor', 'per_item', 'mixed_rot', 'init_some', 'init_some', 'cov_some',
@@ -1314,10 +1498,11 @@ def run(ctx):
         for _ in range(reps):
             dtype = 'float64' if rng.random() < 0.7 else 'float32'
             B = rng.randint(1, 4)
-            style = rng.choice(['imu', 'imu', 'wild', 'wild', 'still', 'mixed'])
+            style = rng.choice(['imu', 'imu', 'wild', 'wild', 'still', 'mixed', 'slow', 'mixed_slow'])
             nch = rng.choice([1, 2, 2, 3, 5]) if F > 1 else 1
             chunks = split_sizes(rng, F, nch)
-            sc = form(gen_float(rng, dtype, F, B, chunks, rng.random() < 0.4, rng.choice([0.0, G32, G32, 1.625, None, -G32]), style))
+            sc = gen_float(rng, dtype, F, B, chunks, rng.random() < 0.4, rng.choice([0.0, G32, G32, 1.625, None, -G32]), style)
+            sc = form(at_rest(rng, sc, style) if style in ('slow', 'mixed_slow') and rng.random() < 0.7 else sc)
             cost = F * B
             coq = cost <= 60 and budget[0] >= cost
             if coq:
@@ -1344,6 +1529,25 @@ def run(ctx):
                                         ('cov_some', 'float64', 9, 2, 3, False), ('defaults', 'float64', 12, 2, 2, False),
                                         ('defaults', 'float32', 7, 1, 1, True), ('noise_free', 'float64', 10, 2, 2, False)):
         add(decorate(rng, gen_float(rng, dtype, F, B, split_sizes(rng, F, nch), wr_, rng.choice([G32, 0.0]), rng.choice(['imu', 'wild', 'mixed'])), mode))
+
+    # near-stationary IMUs at high rate (every run): 0 < |gyro| dt <= about eps(dtype) in every frame, from the identity attitude -
+    # the integrated rotation is tiny itself (relative oracle, rel_scales); batches mixing such items with generic ones; 'faint':
+    # tiny accelerations without gravity from rest (velocity and position tiny themselves).  Five short ones also through Coq.
+    for dtype, F, B, nch, style, g, kwargs, coq in (
+            ('float32', 200, 2, 1, 'slow', None, dict(reset=True, prop_cov=False), False),
+            ('float64', 200, 2, 1, 'slow', G32, dict(reset=True, prop_cov=False), False),
+            ('float32', 64, 1, 1, 'slow', G32, dict(reset=True, prop_cov=False), True),
+            ('float64', 48, 2, 1, 'slow', 0.0, dict(reset=True, prop_cov=False), False),
+            ('float64', 12, 2, 3, 'slow', G32, {}, True), ('float32', 10, 1, 2, 'slow', None, {}, False),
+            ('float32', 12, 4, 2, 'mixed_slow', G32, {}, True), ('float64', 9, 3, 3, 'mixed_slow', 0.0, {}, False),
+            ('float64', 150, 4, 4, 'mixed_slow', G32, {}, False), ('float32', 1, 2, 1, 'slow', G32, {}, True),
+            ('float64', 16, 2, 2, 'faint', 0.0, {}, True), ('float32', 100, 1, 3, 'faint', 0.0, dict(reset=True), False),
+            ('float32', 7, 3, 7, 'faint', 0.0, {}, False)):
+        sc = gen_float(rng, dtype, F, B, split_sizes(rng, F, nch), False, g, style, **kwargs)
+        if (F, B) == (12, 2):
+            sc['rejections'] = 'all'
+        add(at_rest(rng, sc, style), coq=coq)
+        ctx.count('regime:|gyro| dt <= eps, identity attitude (%s)' % style)
 
     # ---------------------------------------------------------------- property clauses on the implementation
     for (sc, r, route, cov_exact, coq) in scen[1:]:
